@@ -19,6 +19,13 @@ Reading of the property's words.
 * "is served": 200 with the current rendering, or 200 "OK" when the path is exactly `/health`.
 * "a rendering of the metrics at that time": the body IS the value `PrometheusHandle::render()` returned while
   handling the request (`served_body_is_render`), so everything C07 / C08 prove of `render` holds of the body.
+  "At that time" when requests overlap and a rendering takes time: the body is made of values loaded AFTER the
+  request arrived — one event per step of the code in `stepC` (`arrive`, one `read` per series, `respond`), any
+  interleaving of any number of clients and updates: `scrape_fresh`, `scrape_sees_completed_updates` (every update
+  completed before the GET arrived is in the body), with `shared_rendering_is_stale` showing that a rendering
+  shared between overlapping scrapes would break the clause and `src_render_per_request` pinning that the code
+  shares none.  Other clients' renderings are neither needed nor in the way (`own_rendering_suffices`,
+  `refusal_and_health_never_wait`).
 * "aborted, malformed or concurrent requests never prevent later clients from being served": connections share
   no state (one task per connection, decision per connection); in the model a faulty connection is an event that
   changes nothing (`faults_transparent`).  That hyper / tokio really isolate connections is exercised by the
@@ -611,6 +618,361 @@ theorem run2_refines_run (arm : LoopAct) (render : Nat → List Char) (addr port
       rw [ih s]
       rfl
 
+/-! ## requests in flight: the body of a 200 response is a rendering taken AFTER the request arrived -/
+
+theorem load_id (m : Nat → Nat) (n k : Nat) (f : Flight) : (f.load m n k).id = f.id := by
+  unfold Flight.load; split <;> rfl
+
+theorem load_ok (m : Nat → Nat) (n k : Nat) (f : Flight) : (f.load m n k).ok = f.ok := by
+  unfold Flight.load; split <;> rfl
+
+theorem load_path (m : Nat → Nat) (n k : Nat) (f : Flight) : (f.load m n k).path = f.path := by
+  unfold Flight.load; split <;> rfl
+
+/-- a load puts the CURRENT value of the series into the accumulator and touches nothing else -/
+theorem load_acc (m : Nat → Nat) (n k j v : Nat) (f : Flight) (h : (f.load m n k).acc j = some v) :
+    f.acc j = some v ∨ v = m j := by
+  unfold Flight.load at h
+  split at h
+  · simp only at h
+    split at h
+    · rename_i hj; subst hj; right; exact (Option.some.inj h).symm
+    · left; exact h
+  · left; exact h
+
+theorem findFlight_read_ne (m : Nat → Nat) (n id id' k : Nat) (fs : List Flight) (h : id' ≠ id) :
+    findFlight id (readFlight m n id' k fs) = findFlight id fs := by
+  induction fs with
+  | nil => rfl
+  | cons f fs ih =>
+    unfold readFlight
+    split
+    · rename_i h1
+      have hne : ¬ f.id = id := by rw [h1]; exact h
+      simp [findFlight, load_id, hne]
+    · simp only [findFlight]; rw [ih]
+
+theorem findFlight_read_eq (m : Nat → Nat) (n id k : Nat) (fs : List Flight) (f : Flight)
+    (h : findFlight id fs = some f) : findFlight id (readFlight m n id k fs) = some (f.load m n k) := by
+  induction fs with
+  | nil => simp [findFlight] at h
+  | cons g gs ih =>
+    unfold readFlight
+    unfold findFlight at h
+    split
+    · rename_i h1
+      simp only [h1, if_true] at h
+      have hg : g = f := Option.some.inj h
+      subst hg
+      simp [findFlight, load_id, h1]
+    · rename_i h1
+      simp only [h1, if_false] at h
+      simp only [findFlight, h1, if_false]
+      exact ih h
+
+theorem findFlight_drop_ne (id id' : Nat) (fs : List Flight) (h : id' ≠ id) :
+    findFlight id (dropFlight id' fs) = findFlight id fs := by
+  induction fs with
+  | nil => rfl
+  | cons f fs ih =>
+    unfold dropFlight
+    split
+    · rename_i h1
+      have hne : ¬ f.id = id := by rw [h1]; exact h
+      simp [findFlight, hne]
+    · simp only [findFlight]; rw [ih]
+
+/-- one event other than the answer to `id`: request `id` stays in flight with its `is_allowed` and path, and
+    whatever its accumulator holds afterwards it held before or is the value the series had at that moment -/
+theorem flight_step (render : List Nat → List Char) (s : StC) (id : Nat) (f : Flight) (e : EvC)
+    (hf : findFlight id s.flights = some f) (he : e.isRespond id = false) :
+    ∃ f', findFlight id (stepC render s e).1.flights = some f' ∧ f'.ok = f.ok ∧ f'.path = f.path ∧
+      ∀ k v, f'.acc k = some v → f.acc k = some v ∨ v = s.metrics k := by
+  cases e with
+  | update k d => exact ⟨f, hf, rfl, rfl, fun _ _ h => Or.inl h⟩
+  | arrive id' ok path =>
+    simp only [stepC]
+    split
+    · exact ⟨f, hf, rfl, rfl, fun _ _ h => Or.inl h⟩
+    · rename_i hn
+      have hne : ¬ id' = id := by
+        intro h; rw [h, hf] at hn; cases hn
+      refine ⟨f, ?_, rfl, rfl, fun _ _ h => Or.inl h⟩
+      simp [findFlight, hne, hf]
+  | read id' k =>
+    simp only [stepC]
+    by_cases h : id' = id
+    · subst h
+      refine ⟨f.load s.metrics s.n k, findFlight_read_eq _ _ _ _ _ _ hf, load_ok _ _ _ _, load_path _ _ _ _, ?_⟩
+      intro j v hv
+      exact load_acc _ _ _ _ _ _ hv
+    · refine ⟨f, ?_, rfl, rfl, fun _ _ h => Or.inl h⟩
+      rw [findFlight_read_ne _ _ _ _ _ _ h]; exact hf
+  | respond id' =>
+    have hne : id' ≠ id := by
+      intro h; subst h; simp [EvC.isRespond] at he
+    simp only [stepC]
+    split
+    · exact ⟨f, hf, rfl, rfl, fun _ _ h => Or.inl h⟩
+    · split
+      · refine ⟨f, ?_, rfl, rfl, fun _ _ h => Or.inl h⟩
+        simp only
+        rw [findFlight_drop_ne _ _ _ hne]; exact hf
+      · exact ⟨f, hf, rfl, rfl, fun _ _ h => Or.inl h⟩
+
+/-- the number of series is not changed by any event (registrations are outside this layer) -/
+theorem stepC_n (render : List Nat → List Char) (s : StC) (e : EvC) : (stepC render s e).1.n = s.n := by
+  cases e with
+  | update k d => rfl
+  | arrive id ok path => simp only [stepC]; split <;> rfl
+  | read id k => rfl
+  | respond id =>
+    simp only [stepC]
+    split
+    · rfl
+    · split <;> rfl
+
+theorem runStateC_n (render : List Nat → List Char) (s : StC) (evs : List EvC) :
+    (runStateC render s evs).n = s.n := by
+  induction evs generalizing s with
+  | nil => rfl
+  | cons e es ih => simp only [runStateC]; rw [ih, stepC_n]
+
+/-- series only grow: every event leaves each series at least where it was (updates ADD on `Nat`: counters) -/
+theorem stepC_mono (render : List Nat → List Char) (s : StC) (e : EvC) (k : Nat) :
+    s.metrics k ≤ (stepC render s e).1.metrics k := by
+  cases e with
+  | update k' d => simp only [stepC]; split <;> omega
+  | arrive id ok path => simp only [stepC]; split <;> exact Nat.le_refl _
+  | read id k' => exact Nat.le_refl _
+  | respond id =>
+    simp only [stepC]
+    split
+    · exact Nat.le_refl _
+    · split <;> exact Nat.le_refl _
+
+theorem runStateC_mono (render : List Nat → List Char) (s : StC) (evs : List EvC) (k : Nat) :
+    s.metrics k ≤ (runStateC render s evs).metrics k := by
+  induction evs generalizing s with
+  | nil => exact Nat.le_refl _
+  | cons e es ih => exact Nat.le_trans (stepC_mono render s e k) (ih _)
+
+theorem runStateC_append (render : List Nat → List Char) (s : StC) (a b : List EvC) :
+    runStateC render s (a ++ b) = runStateC render (runStateC render s a) b := by
+  induction a generalizing s with
+  | nil => rfl
+  | cons e es ih => simp only [List.cons_append, runStateC]; exact ih _
+
+/-- **flight_history**: over ANY history that does not answer request `id` — updates, arrivals, loads and answers
+    of any number of OTHER requests, in any interleaving — the request stays in flight, and every value its
+    accumulator holds at the end was there at the start or is the value the series had at some moment of that
+    history (`t` events into it). -/
+theorem flight_history (render : List Nat → List Char) (id : Nat) (mid : List EvC) (s : StC) (f : Flight)
+    (hf : findFlight id s.flights = some f) (hmid : ∀ e, e ∈ mid → e.isRespond id = false) :
+    ∃ f', findFlight id (runStateC render s mid).flights = some f' ∧ f'.ok = f.ok ∧ f'.path = f.path ∧
+      ∀ k v, f'.acc k = some v →
+        f.acc k = some v ∨ ∃ t, t ≤ mid.length ∧ v = (runStateC render s (mid.take t)).metrics k := by
+  induction mid generalizing s f with
+  | nil => exact ⟨f, hf, rfl, rfl, fun _ _ h => Or.inl h⟩
+  | cons e es ih =>
+    obtain ⟨f1, hf1, hok1, hp1, hacc1⟩ := flight_step render s id f e hf (hmid e (by simp))
+    obtain ⟨f2, hf2, hok2, hp2, hacc2⟩ := ih _ f1 hf1 (fun e' he' => hmid e' (by simp [he']))
+    refine ⟨f2, hf2, hok2.trans hok1, hp2.trans hp1, ?_⟩
+    intro k v hv
+    rcases hacc2 k v hv with h | ⟨t, ht, hv'⟩
+    · rcases hacc1 k v h with h' | h'
+      · exact Or.inl h'
+      · exact Or.inr ⟨0, Nat.zero_le _, by simpa [runStateC] using h'⟩
+    · exact Or.inr ⟨t + 1, by simp only [List.length_cons]; omega, by simpa [runStateC] using hv'⟩
+
+/-- **scrape_fresh** — the freshness clause, for ALL histories.  Let a request arrive (in any state `s`: any
+    number of other requests in flight, each anywhere in its rendering), let ANY history `mid` follow that does not
+    answer it (updates, other clients arriving, their renderings' loads, their answers, its own loads — in any
+    interleaving), and let it then be answered.  The answer is `handle_http_request` applied to a text that is
+    made of one value per series, and EVERY one of these values is the value that series had at some moment AFTER
+    the arrival (`t` events into `mid`).  No value comes from before the request arrived — whatever other
+    renderings were in progress or completed meanwhile. -/
+theorem scrape_fresh (render : List Nat → List Char) (s : StC) (id : Nat) (ok : Bool) (path : List Char)
+    (mid : List EvC) (hnew : findFlight id s.flights = none) (hmid : ∀ e, e ∈ mid → e.isRespond id = false)
+    (s' : StC) (r : Resp)
+    (h : stepC render (runStateC render (stepC render s (.arrive id ok path)).1 mid) (.respond id) = (s', some r)) :
+    ∃ vs : List Nat, r = handleHttpRequest ok (render vs) path ∧ vs.length = s.n ∧
+      (ok = true → path ≠ healthPath → ∀ k, k < s.n → ∃ t, t ≤ mid.length ∧
+        vs[k]? = some ((runStateC render (stepC render s (.arrive id ok path)).1 (mid.take t)).metrics k)) := by
+  have hs1 : (stepC render s (.arrive id ok path)).1 = { s with flights := ⟨id, ok, path, fun _ => none⟩ :: s.flights } := by
+    simp [stepC, hnew]
+  have hf0 : findFlight id (stepC render s (.arrive id ok path)).1.flights = some ⟨id, ok, path, fun _ => none⟩ := by
+    rw [hs1]; simp [findFlight]
+  obtain ⟨f', hf', hok, hp, hacc⟩ := flight_history render id mid _ _ hf0 hmid
+  have hn : (runStateC render (stepC render s (.arrive id ok path)).1 mid).n = s.n := by
+    rw [runStateC_n, stepC_n]
+  generalize runStateC render (stepC render s (.arrive id ok path)).1 mid = S at h hf' hn
+  simp only [stepC, hf'] at h
+  cases ha : f'.answer render S.n with
+  | none => simp [ha] at h
+  | some r' =>
+    simp only [ha] at h
+    have hr : r' = r := by
+      have := (Prod.mk.inj h).2
+      exact Option.some.inj this
+    subst hr
+    simp only at hok hp
+    rw [hn] at ha
+    unfold Flight.answer at ha
+    split at ha
+    · rename_i hc
+      refine ⟨f'.values s.n, ?_, by simp [Flight.values], ?_⟩
+      · rw [← hok, ← hp]; exact (Option.some.inj ha).symm
+      · intro hok' hpath k hk
+        have hren : f'.renders = true := by
+          simp [Flight.renders, hok, hok', hp, hpath]
+        have hcomp : f'.complete s.n = true := by simpa [hren] using hc
+        have hk' : (f'.acc k).isSome = true := by
+          unfold Flight.complete at hcomp
+          exact (List.all_eq_true.1 hcomp) k (List.mem_range.2 hk)
+        obtain ⟨v, hv⟩ := Option.isSome_iff_exists.1 hk'
+        rcases hacc k v hv with h0 | ⟨t, ht, hv'⟩
+        · simp at h0
+        · refine ⟨t, ht, ?_⟩
+          simp [Flight.values, hk, hv, hv']
+    · cases ha
+
+/-- **scrape_sees_completed_updates** — what the clause means for counters.  Under the hypotheses of
+    `scrape_fresh`, every value in the body lies between the value the series had when the request ARRIVED and the
+    value it has when the answer is written: every update that completed before the request arrived is in the body
+    (read-your-writes across the scrape endpoint), nothing is older than the arrival and nothing is invented. -/
+theorem scrape_sees_completed_updates (render : List Nat → List Char) (s : StC) (id : Nat) (ok : Bool)
+    (path : List Char) (mid : List EvC) (hnew : findFlight id s.flights = none)
+    (hmid : ∀ e, e ∈ mid → e.isRespond id = false) (s' : StC) (r : Resp)
+    (h : stepC render (runStateC render (stepC render s (.arrive id ok path)).1 mid) (.respond id) = (s', some r)) :
+    ∃ vs : List Nat, r = handleHttpRequest ok (render vs) path ∧ vs.length = s.n ∧
+      (ok = true → path ≠ healthPath → ∀ k, k < s.n → ∃ v, vs[k]? = some v ∧ s.metrics k ≤ v ∧
+        v ≤ (runStateC render (stepC render s (.arrive id ok path)).1 mid).metrics k) := by
+  obtain ⟨vs, hr, hl, hv⟩ := scrape_fresh render s id ok path mid hnew hmid s' r h
+  refine ⟨vs, hr, hl, ?_⟩
+  intro hok hpath k hk
+  obtain ⟨t, ht, hvt⟩ := hv hok hpath k hk
+  refine ⟨_, hvt, ?_, ?_⟩
+  · exact Nat.le_trans (stepC_mono render s (.arrive id ok path) k) (runStateC_mono render _ _ k)
+  · have : mid = mid.take t ++ mid.drop t := (List.take_append_drop t mid).symm
+    rw [this, runStateC_append]
+    simp only [List.take_append_drop]
+    exact runStateC_mono render _ _ k
+
+/-- **refusal_and_health_never_wait**: a request that does not render — from a peer that is not allowed, or for
+    `/health` — can be answered the moment it has arrived, in EVERY state: however many other clients' renderings
+    are in progress, they do not stand in its way. -/
+theorem refusal_and_health_never_wait (render : List Nat → List Char) (s : StC) (id : Nat) (ok : Bool)
+    (path : List Char) (hnew : findFlight id s.flights = none) (hnr : ok = false ∨ path = healthPath) :
+    (stepC render (stepC render s (.arrive id ok path)).1 (.respond id)).2
+      = some (if ok then ⟨200, okBody⟩ else ⟨403, []⟩) := by
+  have hs1 : (stepC render s (.arrive id ok path)).1 = { s with flights := ⟨id, ok, path, fun _ => none⟩ :: s.flights } := by
+    simp [stepC, hnew]
+  rw [hs1]
+  rcases hnr with h | h
+  · subst h; simp [stepC, findFlight, Flight.answer, Flight.renders, handleHttpRequest]
+  · subst h
+    cases ok <;> simp [stepC, findFlight, Flight.answer, Flight.renders, handleHttpRequest]
+
+/-- after the first `j` loads of a request that arrived in state `s0` (nothing else happening), its accumulator
+    holds exactly the current values of series `0 … j-1` -/
+theorem reads_fill (render : List Nat → List Char) (s0 : StC) (id : Nat) (path : List Char)
+    (hnew : findFlight id s0.flights = none) (hp : path ≠ healthPath) (j : Nat) (hj : j ≤ s0.n) :
+    (runStateC render (stepC render s0 (.arrive id true path)).1 ((List.range j).map (EvC.read id))).n = s0.n
+    ∧ (runStateC render (stepC render s0 (.arrive id true path)).1 ((List.range j).map (EvC.read id))).metrics = s0.metrics
+    ∧ ∃ f, findFlight id
+          (runStateC render (stepC render s0 (.arrive id true path)).1 ((List.range j).map (EvC.read id))).flights = some f
+        ∧ f.ok = true ∧ f.path = path ∧ ∀ k, f.acc k = if k < j then some (s0.metrics k) else none := by
+  induction j with
+  | zero =>
+    have hs1 : (stepC render s0 (.arrive id true path)).1
+        = { s0 with flights := ⟨id, true, path, fun _ => none⟩ :: s0.flights } := by simp [stepC, hnew]
+    rw [hs1]
+    refine ⟨rfl, rfl, ⟨id, true, path, fun _ => none⟩, ?_, rfl, rfl, fun k => by simp⟩
+    simp [runStateC, findFlight]
+  | succ j ih =>
+    obtain ⟨hn, hm, f, hf, hok, hpath, hacc⟩ := ih (by omega)
+    rw [List.range_succ, List.map_append, runStateC_append]
+    generalize runStateC render (stepC render s0 (.arrive id true path)).1 ((List.range j).map (EvC.read id)) = S
+      at hn hm hf
+    simp only [List.map_cons, List.map_nil, runStateC, stepC]
+    refine ⟨hn, hm, _, findFlight_read_eq _ _ _ _ _ _ hf, (load_ok _ _ _ _).trans hok, (load_path _ _ _ _).trans hpath, ?_⟩
+    intro k
+    have hren : f.renders = true := by simp [Flight.renders, hok, hpath, hp]
+    have hjn : j < S.n := by omega
+    have hnone : (f.acc j).isNone = true := by rw [hacc j]; simp
+    unfold Flight.load
+    simp only [hren, hjn, hnone, decide_true, Bool.and_self, if_true]
+    by_cases hk : k = j
+    · subst hk; simp [hm]
+    · rw [if_neg hk, hacc k]
+      by_cases hlt : k < j
+      · simp [hlt, Nat.lt_succ_of_lt hlt]
+      · have : ¬ k < j + 1 := by omega
+        simp [hlt, this]
+
+/-- **own_rendering_suffices** ("concurrent requests never prevent later clients from being served", and the
+    sequential layer as a special case).  In EVERY state — any number of other clients' requests in flight, each
+    anywhere in its rendering, complete or not — a request that arrives, is given its own loads and is then answered
+    gets 200 with the rendering of the series as they are NOW: nothing another request holds is needed, used or in
+    the way.  (`stepEv2`'s one-step answer `render s.metrics` is this history run without interleaving.) -/
+theorem own_rendering_suffices (render : List Nat → List Char) (s0 : StC) (id : Nat) (path : List Char)
+    (hnew : findFlight id s0.flights = none) (hp : path ≠ healthPath) :
+    (stepC render
+        (runStateC render (stepC render s0 (.arrive id true path)).1 ((List.range s0.n).map (EvC.read id)))
+        (.respond id)).2
+      = some ⟨200, render ((List.range s0.n).map s0.metrics)⟩ := by
+  obtain ⟨hn, _, f, hf, hok, hpath, hacc⟩ := reads_fill render s0 id path hnew hp s0.n (Nat.le_refl _)
+  generalize runStateC render (stepC render s0 (.arrive id true path)).1 ((List.range s0.n).map (EvC.read id)) = S
+    at hn hf
+  have hcomp : f.complete s0.n = true := by
+    unfold Flight.complete
+    rw [List.all_eq_true]
+    intro k hk
+    rw [hacc k]; simp [List.mem_range.1 hk]
+  have hvals : f.values s0.n = (List.range s0.n).map s0.metrics := by
+    unfold Flight.values
+    apply List.map_congr_left
+    intro k hk
+    rw [hacc k]; simp [List.mem_range.1 hk]
+  simp only [stepC, hf, Flight.answer, hn, hcomp, Bool.or_true, if_true, hvals, handleHttpRequest, hok, hpath,
+    if_neg hp]
+
+/-- **src_render_per_request**: facts extracted from the current source that tie `stepC` to the code.
+    * the served branch of `handle_http_request` produces the body of every path other than `/health` by
+      `tokio::task::spawn_blocking(move || handle.render())`, awaited in the handler: the rendering is STARTED by the
+      request it answers, after that request arrived (`EvC.arrive` before every `EvC.read` of the same id), and its
+      result goes to that request only (`Flight.acc`);
+    * the handler receives `is_allowed`, the handle and the request — nothing through which a payload, a counter of
+      renderings or a lock could be shared; it calls `render` on that handle and on nothing else;
+    * `HttpListeningExporter` has the three fields the model knows (handle, allowlist, listener) and
+      `http_listener.rs` declares no shared mutable state at all (no `Mutex`, `RwLock`, atomic, `static`, cell, cache):
+      connections have nothing in common but the recorder they render (`StC.flights` are independent records). -/
+theorem src_render_per_request :
+    Generated.http_render_arm = "tokio::task::spawn_blocking(move||handle.render()).await.unwrap().into()"
+    ∧ Generated.http_handler_params = ["is_allowed", "handle", "req"]
+    ∧ Generated.http_handler_render_calls = ["handle"]
+    ∧ Generated.http_exporter_fields = ["handle", "allowed_addresses", "listener_type"]
+    ∧ Generated.http_listener_shared_state = []
+    ∧ Generated.tcp_service_call = "Self::handle_http_request(is_allowed,handle.clone(),req)"
+    ∧ Generated.uds_service_call = "Self::handle_http_request(true,handle.clone(),req)" := by decide
+
+/-- **shared_rendering_is_stale**: the clause is not automatic.  With the "coalescing" shortcut (`stepShared`: a
+    request takes another request's complete rendering instead of rendering itself) there is a history — client A's
+    rendering loads the series, the application adds 1, client B arrives AFTER that update, A's rendering is
+    complete, B is answered — in which B's body shows the value from before B arrived.  `scrape_fresh` excludes
+    exactly this for the code (`stepC`), where the same history cannot answer B at all before B's own loads. -/
+theorem shared_rendering_is_stale :
+    ∃ (pre : List EvC) (r : Resp),
+      let s0 : StC := ⟨1, fun _ => 5, []⟩
+      let run := pre.foldl (fun s e => (stepShared (fun vs => (toString vs).toList) s e).1) s0
+      pre = [.arrive 1 true ['/'], .read 1 0, .update 0 1, .arrive 2 true ['/']]
+      ∧ run.metrics 0 = 6
+      ∧ (stepShared (fun vs => (toString vs).toList) run (.respond 2)).2 = some r
+      ∧ r = ⟨200, (toString [5]).toList⟩
+      ∧ (stepC (fun vs => (toString vs).toList) run (.respond 2)).2 = none :=
+  ⟨_, _, rfl, by decide, by decide, rfl, by decide⟩
+
 /-! ## tie (a): the source text has the shape the model assumes -/
 
 /-- **source_shape**: facts extracted from the current source by `tools/extract.py`: the builder documents
@@ -765,6 +1127,16 @@ example :
       [.update 5, .acceptErr 24, .acceptErr 24, .fault 1 (.ip ⟨.v4, 9⟩ 1), .update 2,
        .conn (.ip ⟨.v4, lo127 + 300⟩ 4000) [⟨"GET".toList, "/m".toList, []⟩]]
       = [[], [], [], [], [], [⟨200, "7".toList⟩]] := by decide
+
+-- overlapping scrapes: A's rendering loads series 0, the application adds 3 to both series, B arrives (and a denied
+-- peer, answered at once); B cannot be answered before its own loads, then shows both updates; A shows series 0 as
+-- it was when A loaded it (after A arrived) and series 1 new
+example :
+    runC (fun vs => (toString vs).toList) ⟨2, fun _ => 5, []⟩
+      [.arrive 1 true "/metrics".toList, .read 1 0, .update 0 3, .update 1 3, .arrive 2 true "/".toList,
+       .arrive 3 false "/metrics".toList, .respond 3, .respond 2, .read 2 1, .read 2 0, .respond 2, .read 1 1,
+       .respond 1]
+      = [⟨403, []⟩, ⟨200, (toString [8, 8]).toList⟩, ⟨200, (toString [5, 8]).toList⟩] := by decide
 
 end examples
 
